@@ -296,11 +296,12 @@ func c05API(t *testing.T, seed uint64) rt.Result {
 			case 8: // an inbound connection from a configured or unconfigured address
 				if w.Lis != nil {
 					rc := w.Connect(a)
+					nap := time.Duration(rr.IntN(3000)) * time.Microsecond
 					wg.Add(1)
 					go func() {
 						defer wg.Done()
 						if rc.Handshake(65002, 90, remoteIDu) {
-							time.Sleep(time.Duration(rr.IntN(3000)) * time.Microsecond)
+							time.Sleep(nap)
 						}
 						rc.Close()
 					}()
